@@ -227,7 +227,7 @@ def subchecks():
             kind="machine",
             run_case=run_case,
             machine=_machine,
-            examples={"quick": 3000, "thorough": 60000},
+            examples={"quick": 3000, "thorough": 300000},
             steps={"quick": 30, "thorough": 50},
         )
     ]
